@@ -190,7 +190,7 @@ def main():
     # de-duplicate
     seen = set(); uniq = []
     for c in cases:
-        k = c.key()
+        k = c.key() + '|' + str(c.meta.get('gen')) + '|' + str(c.meta.get('pair'))
         if k not in seen:
             seen.add(k); uniq.append(c)
     cases = uniq
